@@ -300,6 +300,8 @@ def explore_case(program, tier):
     bounds = []
     ctx0 = run_one(program, (), observe=F.observer(bounds))
     one(program, [], 'plain')
+    if rep['viol']:
+        return rep      # the fault-free run already violates: report it, do not multiply it
     pts, skipped = F.cancel_points(ctx0, bounds)
     rep['counters']['boundaries_skipped_internal'] = skipped
     for k, v in pts:
